@@ -87,6 +87,13 @@ func build(tier string) []*explore.Scenario {
 			}
 		}
 	}
+	// synchronous channel: a context writer whose context is (or gets) cancelled next to plain writers -
+	// whatever the cancelled call does, the other writers' payloads must end up flushed
+	for _, kinds := range [][]string{{"", "cancelled"}, {"", "cancel-later"}, {"cancel-later", "cancelled"}} {
+		for _, wrap := range []hlib.Wrap{{}, {0, 16}} {
+			scs = append(scs, hlib.WriteScenario(hlib.WParams{Cfg: hlib.ChanCfg{}, Wrap: wrap, Writers: [][]hlib.EP{{hlib.Write1, hlib.CtxWritev}, {hlib.CtxWrite1, hlib.CtxWritev}}, CtxKinds: kinds, Bound: bound, Cache: true, Tag: fmt.Sprintf("contexts=%v", kinds)}, hlib.CheckQuiescent))
+		}
+	}
 	// size sweep: boundary sizes through every entry point (deviation bound 1)
 	sizes := []int{0, 1, 1023, 1024, 1025, 2047, 2048, 2049, 4096, 65535, 65536, 65537, 131072}
 	eps := []hlib.EP{hlib.Write1, hlib.Writev, hlib.CtxWrite1, hlib.CtxWritev, hlib.WriterWrite}
